@@ -460,6 +460,12 @@ DirConflictShape(s) ==
 (*     snapshot reports the path deleted and the tombstone removes the whole   *)
 (*     directory from the tree although its files are on disk and clean.       *)
 TrackedDirShape(s) == \E p \in Paths : Tracked(s, p) /\ s.disk[p].k = "dir"
+(* F6: the same placeholder state (F2, F5) on a path that is not in the tree    *)
+(*     makes the walk treat an ignored, untracked file as "already tracked":   *)
+(*     the snapshot records it (SnapshotOK fails, no panic).                   *)
+StaleIgnoredShape(s) ==
+  \E p \in Paths : /\ Tracked(s, p) /\ s.tree[p].k = "absent" /\ FileLike(s.disk[p])
+                    /\ SparseMatch(s.sparse, p) /\ IgnoredAlong(s.disk, p)
 (* F3: a directory of the old tree is a file or symlink on disk and the new    *)
 (*     tree has a file at that path: the skipped removals below it are pushed  *)
 (*     before the path itself, so the changed file states are not sorted       *)
